@@ -280,6 +280,18 @@ pub fn run(ctx: Ctx) -> ! {
             }
         }
     }
+    if !thorough {
+        // three inputs (non-adjacent repeats need a list of three): every triple over
+        // {x0, x1, v3} with well-formed tensors
+        let v3 = [Id::X0, Id::X1, Id::V3];
+        for &a in &v3 {
+            for &b in &v3 {
+                for &c in &v3 {
+                    in_lists.push(vec![(a, Tv::Ok), (b, Tv::Ok), (c, Tv::Ok)]);
+                }
+            }
+        }
+    }
     if thorough {
         // three inputs: all valid-id triples with repetition, tensor variants restricted to {Ok, I32, Rank1, Dim23}
         let t4 = [Tv::Ok, Tv::I32, Tv::Rank1, Tv::Dim23];
@@ -305,6 +317,11 @@ pub fn run(ctx: Ctx) -> ! {
             out_lists.push(vec![a, b]);
             if thorough {
                 for &c in &[Id::V5, Id::V3, Id::Op] {
+                    out_lists.push(vec![a, b, c]);
+                }
+            } else if matches!(a, Id::V5 | Id::V3 | Id::X0) && matches!(b, Id::V5 | Id::V3 | Id::X0) {
+                // three outputs (non-adjacent repeats need a list of three)
+                for &c in &[Id::V5, Id::V3, Id::X0] {
                     out_lists.push(vec![a, b, c]);
                 }
             }
@@ -347,7 +364,7 @@ pub fn run(ctx: Ctx) -> ! {
     let cov: Json = json!({
         "evaluations": calls,
         "distinct_nontrivial": defects,
-        "rule": "4 models x every input list (<=2 entries over ids {x0,x1,const,declared graph output v3,declared intermediate v4,operator id,unknown id,i32::MAX} with repetition x 8 tensor variants each; thorough adds triples) x every output list (<=2 over {final,intermediate,input,const,operator id,unknown}; thorough <=3) x {run, run_n, partial_run} + run_one; non-trivial = requests that contain a defect for which the property demands an error",
+        "rule": "4 models x every input list (<=2 entries over ids {x0,x1,const,declared graph output v3,declared intermediate v4,operator id,unknown id,i32::MAX} with repetition x 8 tensor variants each, plus every triple over {x0,x1,v3} with well-formed tensors; thorough adds triples with tensor variants) x every output list (<=2 over {final,intermediate,input,const,operator id,unknown}, plus every triple over {final,intermediate,input}; thorough <=3) x {run, run_n, partial_run} + run_one; non-trivial = requests that contain a defect for which the property demands an error",
         "samples": samples.take(),
         "exhaustive": true,
         "calls": calls,
